@@ -40,6 +40,32 @@ def replay(ctx, cases, what):
     ctx.traces += len(cases) - summ[0]["bad"]
     for c in cases:
         ctx.distinct.add(vlib.fp(c["m"]))
+    # encodings that are not the plain one are judged by the specification's decoder
+    redo = [x for x in res if x.get("redecode")]
+    res = [x for x in res if not x.get("redecode")]
+    if redo:
+        f_tr = ctx.path("redecode.ndjson")
+        vlib.write_ndjson(f_tr, [{"idx": x["idx"], "m": cases[x["idx"]]["m"], "real": x["real"]} for x in redo])
+        left = list(redo)
+        for attempt in range(6):      # TLC stops at the first bad one: report it, drop it, continue with the rest
+            if not left:
+                break
+            vlib.write_ndjson(f_tr, [{"idx": x["idx"], "m": cases[x["idx"]]["m"], "real": x["real"]} for x in left])
+            r = ctx.tlc("TraceDnsWire", "TraceDnsWire.cfg", workers=1, timeout=1800, env_extra={"TRACE_FILE": f_tr}, name="redecode%d" % attempt)
+            import re as _re
+            mm = _re.search(r"BAD_ENCODING\D+(\d+)", r["out"])
+            if not mm:
+                if not r["ok"]:
+                    raise vlib.Inconclusive("TraceDnsWire did not complete")
+                break
+            bad_idx = int(mm.group(1))
+            x = next(y for y in left if y["idx"] == bad_idx)
+            fam = cases[bad_idx].get("_family", "?")
+            ctx.traces -= 1
+            ctx.violation("wire:%s:%s" % (fam, vlib.fp(cases[bad_idx]["m"])), "%s, family %s: %s, and the specification's decoder does not read it back as the message" % (what, fam, x["note"]),
+                          {"m": cases[bad_idx]["m"], "real": x["real"], "note": x["note"]})
+            left = [y for y in left if y["idx"] != bad_idx]
+        ctx.notes["non_plain_encodings_judged_by_DecMsg"] = len(redo)
     for x in res:
         if x.get("summary"):
             continue
